@@ -236,7 +236,7 @@ func run(c *core.Ctx) {
 		}
 		popped[op.val]++
 	}
-	if c.S.Counts["probe:cas-failed"] > 0 {
+	if c.S.Counter("probe:cas-failed") > 0 {
 		c.S.Count("probe:history-with-failed-cas")
 	}
 	// conservation: nothing returned twice, nothing invented, nothing lost (unless Reset was used)
@@ -271,7 +271,7 @@ func run(c *core.Ctx) {
 		}
 	}
 	// sequential-looking runs are checked only in a sample (porcupine costs ~1 ms per history)
-	if c.S.Counts["probe:cas-failed"] == 0 && c.S.Counts["probe:mutex-contended"] == 0 && c.S.Plan(8) != 0 {
+	if c.S.Counter("probe:cas-failed") == 0 && c.S.Counter("probe:mutex-contended") == 0 && c.S.Plan(8) != 0 {
 		return
 	}
 	c.S.Count("probe:history-checked-with-porcupine")
